@@ -59,7 +59,7 @@ def setup(cx, it, H, valid=True, agg_may_raise=False):
     if valid:
         cx.assume(offT.total() >= 1)  # precondition: at least one scalar to differentiate
         jq = z3.Int("j!q")
-        cx.assume(z3.ForAll([jq], z3.Implies(z3.And(0 <= jq, jq < L.length), A.expects_grad(L.get(jq).ref)),
+        cx.assume(V.forall([jq], z3.Implies(z3.And(0 <= jq, jq < L.length), A.expects_grad(L.get(jq).ref)),
                             patterns=[L.get(jq).ref]))
     return heap, T, L, V.Opt(kn, k), rg, agg, offT
 
